@@ -193,6 +193,8 @@ func (h *Hook) OnDisconnect(cl *mqtt.Client, _ error, expire bool) {
 		return
 	}
 
+	h.updateClient(cl)
+
 	if !expire {
 		return
 	}
